@@ -4,6 +4,7 @@ import math
 import numpy as np
 
 from .. import gen
+from .. import forms as vforms
 from ..util import scale_of
 
 ID = "C15"
@@ -154,6 +155,10 @@ def run_case(ctx, k, rng):
         if sub == 0:
             v2 = float(f(B, A))
             ctx.check("symmetric", abs(v2 - v) <= tol(A, B), ab=v, ba=v2)
+            if len(A) and len(B):
+                (fa, na), (fb, nb) = vforms.relayout(rng, A), vforms.relayout(rng, B)
+                vy = float(f(fa, fb))
+                ctx.check("another memory layout agrees", abs(vy - v) <= 1e-12 * sc, base=v, other=vy, layouts=[na, nb])
             if len(A):
                 vp = float(f(A, A[rng.permutation(len(A))]))
                 ctx.check("reorder=>0", abs(vp) <= tol(A, A), got=vp)
